@@ -589,7 +589,7 @@ static struct pipe_type pt_qsrc = { "qsrc", NULL, NULL, NULL };
 static struct pipe_type pt_qsink = { "qsink", NULL, NULL, NULL };
 
 /* ---- pictures, sound, reference ticks ------------------------------------- */
-static struct ubuf_mgr *av_pic_mgr, *av_sound_mgr;
+static struct ubuf_mgr *av_pic_mgr, *av_sound_mgr[17];
 UREF_ATTR_UNSIGNED(avx, id, "x.id", packet id)
 
 static void av_attrs(struct uref *u, int nt, char **tok, int from)
@@ -600,6 +600,12 @@ static void av_attrs(struct uref *u, int nt, char **tok, int from)
         else if (!strncmp(tok[k], "dts_prog=", 9)) uref_clock_set_dts_prog(u, strtoull(tok[k] + 9, NULL, 10));
         else if (!strncmp(tok[k], "duration=", 9)) uref_clock_set_duration(u, strtoull(tok[k] + 9, NULL, 10));
     }
+}
+
+/* buffer managers are built from the flow format of the request (block, picture or sound) */
+struct ubuf_mgr *pd_ubuf_mgr_for(struct uref *flow_format)
+{
+    return ubuf_mem_mgr_alloc_from_flow_def(0, 0, g_umem, flow_format);
 }
 
 static bool av_cmd(int nt, char **tok)
@@ -639,17 +645,20 @@ static bool av_cmd(int nt, char **tok)
     if (!strcmp(c, "insound") && nt >= 4) {
         struct upipe *up = find_any(tok[1]);
         if (!up) { ret(-1); return true; }
-        if (av_sound_mgr == NULL) {
-            av_sound_mgr = ubuf_sound_mem_mgr_alloc(0, 0, g_umem, 4, 0);
-            ubuf_sound_mem_mgr_add_plane(av_sound_mgr, "lr");
+        /* one packed plane "lr"; the sample size is that of the flow definition last accepted (4 by default) */
+        unsigned ssz = pd_fl_sample_size(tok[1]);
+        if (ssz == 0 || ssz > 16) ssz = 4;
+        if (av_sound_mgr[ssz] == NULL) {
+            av_sound_mgr[ssz] = ubuf_sound_mem_mgr_alloc(0, 0, g_umem, ssz, 0);
+            ubuf_sound_mem_mgr_add_plane(av_sound_mgr[ssz], "lr");
         }
         unsigned id = atoi(tok[2]);
         int samples = atoi(tok[3]);
-        struct uref *u = uref_sound_alloc(g_uref, av_sound_mgr, samples);
+        struct uref *u = uref_sound_alloc(g_uref, av_sound_mgr[ssz], samples);
         if (u == NULL) { ret(-1); return true; }
         uint8_t *buf;
         if (ubase_check(uref_sound_plane_write_uint8_t(u, "lr", 0, -1, &buf))) {
-            for (int i = 0; i < samples * 4; i++) buf[i] = (uint8_t)(id * 7 + i);
+            for (int i = 0; i < samples * (int)ssz; i++) buf[i] = (uint8_t)(id * 7 + i);
             uref_sound_plane_unmap(u, "lr", 0, -1);
         }
         uref_avx_set_id(u, id);
@@ -687,11 +696,6 @@ static bool av_cmd(int nt, char **tok)
             if (!still) continue;
             struct urequest *r = snap[i];
             printf("provide %s %s type=%d\n", sk->name, req_name(r), r->type);
-            if (r->type == UREQUEST_UBUF_MGR && r->uref != NULL) {
-                struct ubuf_mgr *m = ubuf_mem_mgr_alloc_from_flow_def(0, 0, g_umem, r->uref);
-                if (m != NULL) { urequest_provide_ubuf_mgr(r, m, uref_dup(r->uref)); done++; continue; }
-            }
-            if (r->type == UREQUEST_UCLOCK) { urequest_provide_uclock(r, uclock_use(vclock_get())); done++; continue; }
             provide(r, sk->name);
             done++;
         }
@@ -712,6 +716,8 @@ static bool av_cmd(int nt, char **tok)
 bool pd_ext_a(int nt, char **tok)
 {
     const char *c = tok[0];
+    /* one clock in the environment: whoever answers a clock request (probe or sink) gives the virtual one */
+    if (g_uclock != vclock_get()) { if (g_uclock) uclock_release(g_uclock); g_uclock = vclock_get(); }
     if (av_cmd(nt, tok)) return true;
     if (!strcmp(c, "newf") && nt >= 4) {
         const struct pipe_type *pt = registry_find(tok[2]);
